@@ -661,7 +661,9 @@ func (tx *Transaction) GetField(rv ruleVariableParams) []types.MatchData {
 		isException := false
 		lkey := strings.ToLower(c.Key())
 		for _, ex := range rv.Exceptions {
-			if (ex.KeyRx != nil && ex.KeyRx.MatchString(lkey)) || strings.ToLower(ex.KeyStr) == lkey || (ex.KeyStr == "" && ex.KeyRx == nil) {
+			// a regex exclusion of a case sensitive variable (ARGS family) and one added at run time by
+			// ctl:ruleRemoveTarget* keep the letter case they were written in: they are also tried on the key as sent
+			if (ex.KeyRx != nil && (ex.KeyRx.MatchString(lkey) || ex.KeyRx.MatchString(c.Key()))) || strings.ToLower(ex.KeyStr) == lkey || (ex.KeyStr == "" && ex.KeyRx == nil) {
 				isException = true
 				break
 			}
